@@ -341,6 +341,22 @@ class OpRunner(object):
         if k == 'sleep':
             self.run.clock.advance(op.get('dt', 1.0))
             return None
+        if k.startswith('t_'):
+            tr = self.run.transport
+            if k == 't_connect':
+                r = tr.connect(op.get('timeout'))
+                if hasattr(self.run.device, 'start'):
+                    self.run.device.start(self.run.clock.now)
+                return r
+            if k == 't_close':
+                return tr.close()
+            if k == 't_read':
+                if op.get('timeout') is None and not _more_possible(self.run):
+                    rec['skipped'] = True
+                    return b''
+                return tr.bulk_read(op['n'], op.get('timeout'))
+            if k == 't_write':
+                return tr.bulk_write(expand(op['content']), op.get('timeout'))
         raise AssertionError('unknown op %r' % k)
 
     # async ------------------------------------------------------------------------------------
@@ -463,9 +479,33 @@ class OpRunner(object):
                 os.chdir(old)
             return None
         if k == 'sleep':
-            self.run.clock.advance(op.get('dt', 1.0))
+            await asyncio.sleep(op.get('dt', 1.0))
             return None
+        if k.startswith('t_'):
+            tr = self.run.transport
+            if k == 't_connect':
+                r = await tr.connect(op.get('timeout'))
+                if hasattr(self.run.device, 'start'):
+                    self.run.device.start(self.run.clock.now)
+                    if self.run.link.kick is not None:
+                        self.run.link.kick()
+                return r
+            if k == 't_close':
+                return await tr.close()
+            if k == 't_read':
+                if op.get('timeout') is None and not _more_possible(self.run):
+                    rec['skipped'] = True
+                    return b''
+                return await tr.bulk_read(op['n'], op.get('timeout'))
+            if k == 't_write':
+                return await tr.bulk_write(expand(op['content']), op.get('timeout'))
         raise AssertionError('unknown op %r' % k)
+
+
+def _more_possible(run):
+    """Can a read without a timeout ever return? (raw peer scripts only)"""
+    d = run.device
+    return bool(getattr(d, 'q', None)) or run.link.cur is not None
 
 
 class _OsShim(object):
@@ -523,8 +563,12 @@ def build(scn, tape):
     run.clock = SimClock()
     run.log = EventLog()
     dspec = scn['device']
-    run.device = Device(dspec, tape, run.log)
-    run.device.pubkeys = pubnums()
+    if dspec.get('raw_peer'):
+        from .rawpeer import RawPeer
+        run.device = RawPeer(dspec, tape)
+    else:
+        run.device = Device(dspec, tape, run.log)
+        run.device.pubkeys = pubnums()
     cfg = scn.get('config', {})
     run.link = Link(run.device, run.clock, tape, cfg, run.log)
     return run
@@ -559,6 +603,8 @@ def _finish(run):
         v = getattr(link, k)
         if v:
             run.probes[k] = v
+    if getattr(link, 'bp_pauses', 0):
+        run.probes['backpressure_pause'] = link.bp_pauses
     for (idx, kind, op) in link.faults_fired:
         run.probes['fault_' + kind] = run.probes.get('fault_' + kind, 0) + 1
     if run.sched is not None:
@@ -607,6 +653,7 @@ def _execute_sync(scn, tape, L):
                 return SimLock(None, 'L%d' % counter[0])
             adb_device.Lock = mk_lock
         transport, extra = _mk_transport_sync(scn, run, waiter)
+        run.transport = transport
         o = scn.get('object', {})
         if scn.get('transport') == 'usb' and scn.get('usb', {}).get('via_class'):
             from . import usbworld
@@ -684,6 +731,9 @@ def _execute_sync(scn, tape, L):
         adb_device.Lock = saved_lock
         _unpatch(saved)
         L['hidden_helpers'].os = os
+        if scn.get('transport') == 'tcp':
+            from . import simsock
+            simsock.restore_tcp_module()
         if sys.gettrace() is not None and sched is not None:
             sys.settrace(None)
     return _finish(run)
@@ -764,6 +814,7 @@ def _execute_async(scn, tape, L):
             transport = simsock.make_tcp_transport_async(scn, run, loop)
         else:
             raise AssertionError(kind)
+        run.transport = transport
         o = scn.get('object', {})
         obj = mod.AdbDeviceAsync(transport, default_transport_timeout_s=o.get('default_tt'), banner=o.get('banner', 'simhost'))
         if o.get('local_id') is not None:
